@@ -8,6 +8,7 @@ Nothing here executes igris code; clang is used as a parser/lowering only.
 import json
 import os
 import shutil
+import re
 import subprocess
 import sys
 import tempfile
@@ -588,9 +589,11 @@ UNROLL_ARGS = ('-unroll-threshold=4000', '-two-entry-phi-node-folding-threshold=
 
 
 def compile_ir(src, repo, extra_flags=(), out_name=None, passes=OPT_PASSES,
-               lang=None, exceptions=False, opt_args=()):
+               lang=None, exceptions=False, opt_args=(), inline=False):
     """src -> JSON module (clang -> opt -> irdump). Raises AnalysisBroken on
-    tool failure."""
+    tool failure.  inline=True lets LLVM inline the unit's own helper functions into their callers first (clang -O0 marks
+    every function noinline; the attribute is dropped), so that a rule sees the same straight-line code whether a step is
+    written in place or in a static helper."""
     if not os.path.exists(IRDUMP):
         raise AnalysisBroken('bin/irdump missing: run MANIFEST.setup_cmd (sh tools/setup.sh)')
     sd = scratch()
@@ -604,6 +607,13 @@ def compile_ir(src, repo, extra_flags=(), out_name=None, passes=OPT_PASSES,
     r = subprocess.run(cmd, capture_output=True, text=True)
     if r.returncode != 0:
         raise AnalysisBroken('clang failed on %s:\n%s' % (src, r.stderr[-3000:]))
+    if inline:
+        with open(ll) as fh:
+            txt = fh.read()
+        with open(ll, 'w') as fh:
+            fh.write(re.sub(r'(?m)^(attributes #\d+ = \{.*)$', lambda m: m.group(1).replace(' noinline', ''), txt))
+        passes = 'function(mem2reg),cgscc(inline),function(%s)' % passes
+        opt_args = list(opt_args) + ['-inline-threshold=100000']
     r = subprocess.run(['opt-14', '-passes=' + passes] + list(opt_args) + ['-S', ll, '-o', oll],
                        capture_output=True, text=True)
     if r.returncode != 0:
